@@ -189,3 +189,27 @@ prop(
          "least one neighbour.",
     assumptions=["the fixed neighbour orders are the documented ones: 4: (0,1),(-1,0),(0,-1),(1,0); diagonal: (-1,1),(-1,-1),(1,-1),(1,1); 8: counter-clockwise from (0,1)"],
 )
+
+prop(
+    "C11",
+    level="exploration",
+    technique="differential runtime monitor: results checked against the defining equations in i128/u128 with an own Euclid "
+              "(exhaustive small cube + boundary-biased sampling to 2^20, all 12 integer types for gcd/lcm)",
+    level_text="Exploration with an exhaustive sub-space: every (a,b,c) with |.|<=12 and every pair of moduli <=40 with all "
+               "reduced residues (i64, i32, i128), 8-bit gcd/lcm pairs exhaustively, and millions of sampled triples / "
+               "congruence pairs up to 2^20 biased to zeros, negatives, multiples, non-coprime moduli and results next to the "
+               "lcm. The oracle is the definition itself (a*x+b*y=c exactly; None iff gcd does not divide c; 0<=x<lcm and "
+               "both congruences), never a particular solution. Run with overflow checks on as well.",
+    level_note="Trusted: own Euclid and i128 arithmetic of the engine. lcm is judged only where |a*b| fits the type; the signed "
+               "minimum is excluded (as the property states).",
+    runs=[
+        dict(engine="gcdmon", profile="release", args=[], group="all"),
+        dict(engine="gcdmon", profile="dev", args=[], group="all", label="gcdmon/dev (overflow checks on)"),
+    ],
+    floor=dict(quick=4_000_000, thorough=100_000_000),
+    counter_floors=dict(quick=dict(egcd_some=300_000, egcd_none=100_000, crt_some=1_000_000, crt_none=400_000, gcd_checked=500_000, lcm_checked=300_000)),
+    rule="one evaluation = one library call (gcd, lcm, egcd or crt on one operand tuple) checked against the defining "
+         "equations; distinct_nontrivial = distinct tuples with both operands non-zero and of different magnitude (gcd/egcd) "
+         "or non-coprime moduli / different residues (crt). In the thorough tier only every 32nd non-trivial hash is stored.",
+    assumptions=["magnitudes stay where the mathematical intermediate values fit the integer type (<= 2^20 over i64)"],
+)
